@@ -37,7 +37,7 @@ def register(claim, na):
           "the running counter so no unwritten np.empty row is returned (R-COMPACT), capacity checks precede stores "
           "(R-GUARDSTORE), the force is a scalar times contact_plane_hnf[:3] (R-FORCEDIR), fewer than 3 vertices means no "
           "intersection at all three stages and the plane is normalised after the zero-normal test and before its offset is "
-          "used (R-POLYGUARD); the tetrahedron/plane pre-filter is True exactly when both tetrahedra have a vertex strictly beyond each side's tolerance (R-PLANECROSS: 16-row truth table of the function's boolean structure). Does not decide that vertices lie on the plane / inside both tetrahedra, convexity, "
+          "used (R-POLYGUARD); the tetrahedron/plane pre-filter is True exactly when both tetrahedra have a vertex strictly beyond each side's tolerance (R-PLANECROSS: 16-row truth table of the function's boolean structure); RigidBody methods that move the vertices reset every derived cache, including caches filled from outside the class (R-INVALIDATE). Does not decide that vertices lie on the plane / inside both tetrahedra, convexity, "
           "non-negative pressure or order independence.", "DESIGN.md §4 C15")
     claim("C16", AST + " + class-attribute resolution (E1): negation pairing, tuple-order flow, cache invalidation, "
                        "sibling agreement of the two broad phases",
@@ -60,7 +60,7 @@ def register(claim, na):
           "njit function from Python or lazily compiled code passes accepted ndim/dtype/layout (R-EAGER, 240 sites, UNKNOWN "
           "count bounded); globals read by compiled code are never mutated (R-FROZEN); capacity checks dominate stores and "
           "sentinel indices are guarded (R-GUARDSTORE, R-SENTINEL); compaction buffers are written at the counter "
-          "(R-COMPACT); inventory of 122 compiled functions. Does not decide numerical agreement nor whether numba can type a "
+          "(R-COMPACT); math.sqrt never receives a sign-indefinite argument (R-SQRTDOMAIN: ValueError interpreted vs NaN compiled); inventory of 122 compiled functions. Does not decide numerical agreement nor whether numba can type a "
           "function.", "DESIGN.md §4 C20")
     claim("C01", AST + ": Minkowski pairing, parallel-array stores, barycentric application, bit-mask remap tables "
                        "(constant evaluation over all masks), plane/face agreement, loop exit discipline over _gjk_jolt.py",
@@ -69,15 +69,15 @@ def register(claim, na):
           "(R-PAR, R-COMPACT); closest points apply the weights of Y[0..k] to P[0..k] and Q[0..k] in order (R-BARY); sub-solver "
           "masks map to the right vertex bits for all masks, returned masks name the vertices the point is built from, plane "
           "tests guard their own face, Y[0..k-1] reach the k-point solver, candidates are adopted under strict < (R-BITMAP, "
-          "R-MASKPOINT, R-PLANES, R-SOLVERDISPATCH); loops have a progress/cap discipline (R-LOOP); the early 'Clipped' (no result) exit requires the new support point strictly behind the origin plane, s < 0, in addition to s^2 > |dir|^2 max_distance_squared (R-CLIPGUARD). Does not decide |a-b|=d "
+          "R-MASKPOINT, R-PLANES, R-SOLVERDISPATCH); loops have a progress/cap discipline (R-LOOP); the early 'Clipped' (no result) exit requires the new support point strictly behind the origin plane, s < 0, in addition to s^2 > |dir|^2 max_distance_squared (R-CLIPGUARD); running-minimum chains of the sub-solvers store the new minimum before the next comparison (R-RUNMIN). Does not decide |a-b|=d "
           "within 1e-5 L, optimality of d, or d>0 <=> separated.", "DESIGN.md §4 C01")
     claim("C02", AST + ": Minkowski pairing, type-dispatch enumeration of the inflation (all ordered class pairs), decision-tree "
                        "equality of the two Nesterov files, loop caps",
           "Decides structural necessary conditions shared by the five boolean tests: R-MINK at every support site incl. "
-          "forwarded collider pairs and seeds; R-PAR for MPR/libccd; R-INFL (293 pair/side obligations: the radius is inflated "
+          "forwarded collider pairs and seeds; R-INFL (293 pair/side obligations: the radius is inflated "
           "iff both supports are specialised and radius-free - a mismatch flips the Nesterov booleans by a full radius >> "
           "delta); R-DISPATCH, R-DTREE, R-TUPLEROLE; exit discipline of all loops (R-LOOP; mpr._refine_portal is TOLERANCE, "
-          "termination not proved). Does not decide the delta band or agreement on concrete inputs.", "DESIGN.md §4 C02")
+          "termination not proved); running-minimum chains of the Jolt sub-solvers store the new minimum (R-RUNMIN). Does not decide the delta band or agreement on concrete inputs.", "DESIGN.md §4 C02")
     claim("C08", AST + " + by-construction sign/unit lattice over return paths (engine signs)",
           "Decides: depth >= 0 and direction = unit-or-zero BY CONSTRUCTION on every return path of mpr_penetration and its "
           "three helpers, zero vector on touching contact, depth/direction from the closest point of the portal face to the "
@@ -107,7 +107,7 @@ def register(claim, na):
           "component is a non-negative multiple of the same direction component, a constant whose sign the path's tests "
           "justify, or zero, i.e. <support - centre, d> >= 0; the cone takes the candidate with the larger projection); "
           "R-MARGIN (inner support + margin * unit(d), delegation); R-AXIS; R-AABBARGS; R-EAGER at the support call sites. Does "
-          "R-QUERYSTATE: state written by a support query reaches the returned value only as the start hint of the hill climb, never as the answer. Does "
+          "R-QUERYSTATE: state written by a support query reaches the returned value only as the start hint of the hill climb, never as the answer; R-COHERENCE: update_pose refreshes on every path, with the constructor's own expression, every attribute support_function reads; R-ORIGINFREE: no orientation test depends on the frame origin. Does "
           "not decide extremeness within 1e-9 L nor that hill climbing is start-independent (a convexity argument about runtime data).",
           "DESIGN.md §4 C03")
     claim("C04", "sibling-agreement rules + coordinate-frame (E2) and length-degree (E3) abstract interpretation",
@@ -115,7 +115,7 @@ def register(claim, na):
           "from the same-named constructor parameters (R-AABBARGS); Margin subtracts/adds the margin on lo/hi (R-MARGIN); axis "
           "agreement (R-AXIS); all *_aabb functions and aabb() methods are frame consistent and return world-frame POINT bounds "
           "(R-FRAME, R-FRAMERET); RigidBody.aabb must apply body2origin_ (R-WORLDAABB: known finding, body-frame box); every "
-          "extent is homogeneous of degree 1 (R-DEGREE). Enclosure and tightness of the closed-form extents are numerical and are "
+          "extent is homogeneous of degree 1 (R-DEGREE); the radicands 1 - c^2 of the closed-form extents are clamped at 0 so that a pose orthonormal only to one ulp cannot give a NaN box (R-SQRTDOMAIN: three sites fixed); update_pose refreshes, on every path, the pose and every attribute aabb() reads (R-COHERENCE), and RigidBody methods that move the vertices reset the caches aabb() reads (R-INVALIDATE). Enclosure and tightness of the closed-form extents are numerical and are "
           "NOT decided (a frame- and degree-consistent wrong formula such as the rotated-ellipsoid extent is invisible here).",
           "DESIGN.md §4 C04")
     claim("C12", "coordinate-frame abstract interpretation (E2: equivariance), length-degree inference (E3: scaling), Minkowski "
@@ -124,11 +124,11 @@ def register(claim, na):
           "(R-FRAME over the non-hydroelastic package; world-frame point results, R-FRAMERET), dimensional homogeneity of every "
           "sum/comparison/stack and degree-1 returns of the 34 distance functions (R-DEGREE, R-RETDEGREE; 3 reasoned "
           "exceptions), collider-order preservation and A-B support points (R-MINK). Does not decide equality of results on "
-          "concrete transformed scenes within tolerance nor swap symmetry of leaf formulas.", "DESIGN.md §4 C12")
+          "concrete transformed scenes within tolerance nor swap symmetry of leaf formulas. Translation invariance additionally: no sign test of <direction, POSITION> (R-ORIGINFREE).", "DESIGN.md §4 C12")
     claim("C13", "comparison-polarity rule + coordinate-frame (E2) and length-degree (E3) abstract interpretation",
           "Decides: inclusion comparisons non-strict / exclusion masks strict in all eight predicates and reductions only over "
           "axis=1 (R-CLOSEDSET); world points moved with the inverse pose in row-vector convention (R-FRAME); squared distances "
-          "compared with squared sizes (R-DEGREE); axis agreement with support function and AABB (R-AXIS). Does not decide the "
+          "compared with squared sizes (R-DEGREE); axis agreement with support function and AABB (R-AXIS); no membership / orientation test compares an inner product <direction, POSITION> with a constant, i.e. the predicates do not depend on where the frame's origin lies (R-ORIGINFREE, small affine-kind inference). Does not decide the "
           "1e-9 L band nor agreement with point_to_<shape> on concrete points.", "DESIGN.md §4 C13")
     claim("C06", AST + ": update-order, payload writer/reader agreement, whitelist filtering; plus the C05 tree rules and C14's "
                        "update_pose coherence",
@@ -137,7 +137,7 @@ def register(claim, na):
           "read as written, pair[0]/pair[1] index this/other tree, self-pairs skipped only for equal indices, candidates removed "
           "only by the whitelist (R-PAYLOAD); detect / detect_any visit every collider, filter only by the querying frame's "
           "whitelist, run the narrow phase on every candidate, mark both frames / return at the first hit (R-WHITELIST); "
-          "transitively the AABB tree invariants and R-COHERENCE. Does not decide equality with an all-pairs oracle on concrete "
+          "every collider is updated and re-inserted unconditionally on every refresh (no 'did it move?' guard); transitively the AABB tree invariants and R-COHERENCE for the pose and the attributes aabb() reads. Does not decide equality with an all-pairs oracle on concrete "
           "robots, URDF parsing, or robots with several colliders per frame.", "DESIGN.md §4 C06")
     claim("C10", "by-construction sign lattice + role-flow dataflow over return tuples (E6) + loop classification (E4) + array-layout "
                  "(E1), frame (E2) and degree (E3) abstract interpretation",
@@ -147,7 +147,7 @@ def register(claim, na):
           "(R-TRIPLE, R-ROLE, R-ROLEAGREE) - i.e. '|p1-p2| = d' and 'points lie on the respective primitives' hold RELATIVE TO "
           "THE CALLEES; every loop of the package is CAP/STRUCT (R-HANG: 'never hang' is fully decided for this package); calls "
           "into explicitly typed helpers are accepted (R-EAGER); local-frame evaluation is frame consistent and results are "
-          "world-frame points (R-FRAME); returned distances and points have length degree 1 (R-RETDEGREE); the two halves of the line-to-box case analysis are mirror images under the axis swap (R-MIRROR), all 8 sign patterns of the direction reach the case function that moves along exactly the positive axes and clamps the zero axes (R-CASEDISPATCH), and _case_no_zeros hands _box_face the axis that won all pairwise comparisons (R-TOURNAMENT), the branches of _box_face mirror / re-use each other and each of its 9 leaves uses one offset per axis in delta, squared distance and stored box point (R-BOXFACE). Does not decide membership of arithmetically "
+          "world-frame points (R-FRAME); returned distances and points have length degree 1 (R-RETDEGREE); the two halves of the line-to-box case analysis are mirror images under the axis swap (R-MIRROR), all 8 sign patterns of the direction reach the case function that moves along exactly the positive axes and clamps the zero axes (R-CASEDISPATCH), and _case_no_zeros hands _box_face the axis that won all pairwise comparisons (R-TOURNAMENT), the branches of _box_face mirror / re-use each other and each of its 9 leaves uses one offset per axis in delta, squared distance and stored box point (R-BOXFACE); a division by a vector component with a computed index first selects a non-zero component (R-SELCOMP); math.sqrt arguments are >= 0 by construction (R-SQRTDOMAIN); running-minimum chains store the new minimum (R-RUNMIN). Does not decide membership of arithmetically "
           "constructed leaf points within 1e-9 L, NaN-freedom, or 'never raises' beyond signature conformance.", "DESIGN.md §4 C10")
     claim("C11", "feature-enumeration completeness rules + convexity-table rule for the clamp idiom + role-flow (E6) + degree "
                  "inference (E3)",
